@@ -50,7 +50,19 @@ func within(d time.Duration, hang string, f func() string) string {
 // pollStorm: N elements, many consumers, nobody offers.  Poll may return nil only when the queue is (about to be) empty:
 // `removed` is incremented AFTER each successful Poll, so removed + consumers < N at a nil return proves that elements were
 // in the queue during the whole call.  Every element comes out once; each consumer sees increasing values (FIFO).
-func pollStorm(q queue.Queue, name string, n, consumers int) {
+func pollStorm(mk func() queue.Queue, name string, n, consumers int, d time.Duration) {
+	// fresh queues, round after round, until the time budget is used (a loaded machine gets fewer rounds, never a wrong verdict)
+	t0 := time.Now()
+	for round := 0; round == 0 || time.Since(t0) < d; round++ {
+		if m := pollStormRound(mk(), n, consumers); m != "" {
+			report(name, m)
+			return
+		}
+	}
+	report(name, "")
+}
+
+func pollStormRound(q queue.Queue, n, consumers int) string {
 	for i := 1; i <= n; i++ {
 		q.Offer(int64(i))
 	}
@@ -92,14 +104,12 @@ func pollStorm(q queue.Queue, name string, n, consumers int) {
 	}
 	wg.Wait()
 	if b := bad.Load(); b != nil {
-		report(name, b.(string))
-		return
+		return b.(string)
 	}
 	if atomic.LoadInt64(&removed) != int64(n) {
-		report(name, fmt.Sprintf("%d of %d elements came out", removed, n))
-		return
+		return fmt.Sprintf("%d of %d elements came out", removed, n)
 	}
-	report(name, "")
+	return ""
 }
 
 // observerStorm: producers and consumers keep at least `floor` elements in the queue (avail is a lower bound of the size:
@@ -454,9 +464,10 @@ func main() {
 	for _, k := range strings.Split(*kinds, ",") {
 		switch k {
 		case "queue":
-			pollStorm(queue.NewJDKLinkedQueue(), "queue/poll-storm-jdk-16", 300000, 16)
-			pollStorm(queue.NewJDKLinkedQueue(), "queue/poll-storm-jdk-48", 200000, 48)
-			pollStorm(queue.NewMutexLinkedQueue(), "queue/poll-storm-mutex", 100000, 8)
+			jdk := func() queue.Queue { return queue.NewJDKLinkedQueue() }
+			pollStorm(jdk, "queue/poll-storm-jdk-16", 300000, 16, 1500*time.Millisecond)
+			pollStorm(jdk, "queue/poll-storm-jdk-48", 200000, 48, 1500*time.Millisecond)
+			pollStorm(func() queue.Queue { return queue.NewMutexLinkedQueue() }, "queue/poll-storm-mutex", 100000, 8, 0)
 			observerStorm(queue.NewJDKLinkedQueue(), "queue/observer-storm-jdk", 2500*time.Millisecond)
 			observerStorm(queue.NewMutexLinkedQueue(), "queue/observer-storm-mutex", 300*time.Millisecond)
 		case "pool":
